@@ -160,6 +160,7 @@ def run(tier: str, seed: int, t0: float) -> int:
     stats = Stats()
     out: list[Violation] = []
     thorough = tier == "thorough"
+    rng = random.Random(seed)
     maxr, maxs = (3, 2)
     maxops = 4 if thorough else 3
     # ---- M: laws on the specification
@@ -192,8 +193,55 @@ def run(tier: str, seed: int, t0: float) -> int:
         for ev in r.printed:
             replay_mapping(ev, stats, out)
             stats.traces += 1
+    # ---- T: mappings of real step histories with mirror registrations made by rebasing
+    from .. import ops, proj, rebase, schemas, steps, trace, universe
+    from prosemirror.transform import Transform
+    jobs = []
+    for name in schemas.BUNDLED_PLUS:
+        sch2, js2, prs = universe.random_docs(name, 12 if not thorough else 120, rng, size=1.4)
+        slices = []
+        for toks, rd in prs:
+            n = rd.content.size
+            for _ in range(2):
+                f = rng.randint(0, n)
+                t = rng.randint(f, min(n, f + 6))
+                try:
+                    slices.append(rd.slice(f, t))
+                except Exception:  # noqa: BLE001
+                    pass
+        sg = steps.StepGen(sch2, js2, rng, slices)
+        og = ops.OpGen(sch2, js2, rng, slices, sg)
+        b2 = trace.Batch(js2)
+        for toks, rd in prs:
+            tr = Transform(rd)
+            for _ in range(rng.randint(1, 5)):
+                nm, args, thunk = og.pick(tr)
+                ops.run_op(thunk)
+            if tr.steps:
+                rebase.undo_shape(b2, tr, rng)
+            # two concurrent histories against the same base
+            tr_r = Transform(rd)
+            for _ in range(rng.randint(1, 3)):
+                nm, args, thunk = og.pick(tr_r)
+                ops.run_op(thunk)
+            info = rebase.rebase(b2, rd, list(tr.steps), list(tr_r.steps), rng)
+            if info:
+                stats.count("rebased_steps", info["rebased"])
+        jobs.append(("Trace_Doc", b2, f"T mappings[{name}]"))
+    vs = trace.validate_many(jobs, stats)
+    for (mod, b2, what), verdicts in zip(jobs, vs):
+        for e in b2.events:
+            v = verdicts[e["id"]]
+            stats.traces += 1
+            stats.count(f"mapping_T:{e['tag']}:{v}")
+            stats.case({"tag": e["tag"], "maps": [m["ranges"] for m in e["maps"]][:6], "mirror": e["mirror"], "from": e["from"], "to": e["to"]},
+                       nontrivial=len(e["maps"]) > 1)
+            if v.startswith("bad:"):
+                bad_q = [q for q in e["q"]][:3]
+                out.append(Violation(v[4:], "Mapping.map_result", f"{what}: tag={e['tag']} maps={[(m['ranges'], m['inv']) for m in e['maps']]} mirror={e['mirror']} from={e['from']} to={e['to']} q={bad_q}",
+                                     {"kind": "real-history mapping", "event": e}, {"tag": e["tag"]}))
     # vacuity gates
-    for key, least in (("map_query", 1000), ("touches_query", 100), ("recover_query", 100), ("for_each", 100),
+    for key, least in (("mapping_T:undo:ok", 30), ("mapping_T:rebase-slice:ok", 30), ("mapping_T:rebase-full:ok", 20), ("rebased_steps", 20), ("map_query", 1000), ("touches_query", 100), ("recover_query", 100), ("for_each", 100),
                        ("mapping_append_mapping", 10), ("mapping_append_mapping_inverted", 10),
                        ("mapping_slice", 10), ("mapping_invert", 5), ("mapping_append_mirror", 5)):
         if stats.counts.get(key, 0) < least:
